@@ -2,7 +2,7 @@
 
 A  Props/C32.v over Model/Scan.v, dialects Tpl and XGo
 B  the Tpl dialect against the real tpl/scanner and the XGo dialect against the real scanner:
-   every string of <= 3 symbols over a 53-symbol alphabet (both comment modes), seeded
+   every string of <= 3 symbols over a 39-symbol (quick) / 53-symbol (thorough) alphabet, both comment modes, seeded
    shared-lexeme sequences, a malformed stream
 C  the property itself: the real tpl/scanner against the real XGo scanner (token kind mapped by
    spelling, offset, literal, inserted semicolons) wherever both produce only shared token kinds,
@@ -95,6 +95,7 @@ def shared_sequence(rng):
 
 def run(ctx):
     ctx.regen(["scantok"])
+    sc.gen_notes(ctx)
     ctx.prove("C32")
     R = sc.Runner(ctx)
     # token kind mapping XGo -> TPL through String() of the running packages
@@ -118,7 +119,8 @@ def run(ctx):
     tpl_only = {c for c, s in ts.items() if s in ("~", "@", "**")}
 
     groups = []
-    ex = sc.exhaustive(sc.ALPHA, 3)
+    alpha = sc.ALPHA_MED if ctx.quick else sc.ALPHA
+    ex = sc.exhaustive(alpha, 3)
     groups.append(("exhaustive", ex, True))
     seqs, shapes = [], {}
     for _ in range(ctx.n(5000, 200000)):
@@ -202,7 +204,7 @@ def run(ctx):
                    "mutated/unshared sequences (model~impl only); the fixed finding set (%d inputs). Every source x {comments on, off} x "
                    "{tpl, XGo}. The real scanners are compared where both outputs contain only shared token kinds; in the exhaustive set "
                    "the three finding-set dimensions are skipped (counted in compare_stats). distinct = distinct source"
-                   % (len(ex), len(sc.ALPHA), len(seqs), len(mal), len(FINDING_SET)),
+                   % (len(ex), len(alpha), len(seqs), len(mal), len(FINDING_SET)),
               exhaustive=True, exhaustive_part=4 * len(ex), compare_stats=stats, theorem_hypothesis_stats=sh, compared_per_group=per_group,
               sequence_shape_histogram=dict(sorted(shapes.items())))
     ctx.trust("modelled, not verified: tpl/scanner/scanner.go and scanner/scanner.go (one Gallina text with a dialect switch), each tied "
